@@ -103,7 +103,7 @@ def main():
             os.remove(f)
         t0 = time.time()
         res = enumlib.run(eb, "TestVerifEnumC01T2", tier, 60 if q else 240, nshards=8,
-                          env_extra={"GORACE": "halt_on_error=0 exitcode=0 history_size=3 log_path=%s/race-c01t2" % work}, accept_test_failure=True)
+                          env_extra={"GORACE": "halt_on_error=0 exitcode=0 history_size=3 log_path=%s/race-c01t2" % work, "VERIF_T2_SKIP_LONG": "1"}, accept_test_failure=True)
         viol, honly, mx, eng = racelib.collect(work, "c01t2", pattern="race-%s.*")
         harness_only += honly
         for k, v in mx.items():
@@ -124,7 +124,7 @@ def main():
         for f in glob.glob(os.path.join(work, "race-c16t2.*")):
             os.remove(f)
         t0 = time.time()
-        res = enumlib.run(eb, "TestVerifEnumC16T2", tier, 240 if q else 900, nshards=14,
+        res = enumlib.run(eb, "TestVerifEnumC16T2", tier, 240 if q else 900, nshards=16,
                           env_extra={"GORACE": "halt_on_error=0 exitcode=0 history_size=3 log_path=%s/race-c16t2" % work}, accept_test_failure=True)
         viol, honly, mx, eng = racelib.collect(work, "c16t2", pattern="race-%s.*")
         harness_only += honly
